@@ -102,6 +102,16 @@ Definition dispatch (f : list N) (a : jv) : jv :=
     | JS line => jres (fun x : list N * params * list N =>
                          let '(n, ps, v) := x in JL [JS n; jparams ps; JS v]) (parts line)
     | _ => junsupported end
+  else if is f "c05_guards" then
+    (* [is_token name; wf_params ps; head_safe; params_unesc_safe; value_safe v]: the guards of the C05/C08 theorems *)
+    match a with
+    | JL [JS name; JL ps; JZ sorted; JS v] =>
+        match params_of ps with
+        | Some ps => let sd := negb (sorted =? 0)%Z in
+                     JL [jbool (is_token name); jbool (wf_params ps); jbool (head_safe name ps sd);
+                         jbool (params_unesc_safe ps); jbool (value_safe v)]
+        | None => junsupported end
+    | _ => junsupported end
   else if is f "contentlines_from_ical" then
     match a with JS st => jstrs (contentlines_from_ical st) | _ => junsupported end
   else if is f "contentlines_to_ical" then
